@@ -655,7 +655,10 @@ func (f *ggFn) returnStmt(s *ast.ReturnStmt, env *ggEnv, ind string) string {
 				}
 			}
 		}
-		g.fail(e.Pos(), "error result %s: only nil, fmt.Errorf(...) and errors.New(...) are known to be nil / non-nil", g.text(e.Pos(), e.End()))
+		if f.alwaysNonNilCtor(e) {
+			return f.none(s.Pos())
+		}
+		g.fail(e.Pos(), "error result %s: only nil, fmt.Errorf(...), errors.New(...) and package constructors of the form `return &T{...}` are known to be nil / non-nil", g.text(e.Pos(), e.End()))
 	}
 	var vals []string
 	var guards []string
@@ -926,4 +929,62 @@ func (f *ggFn) store(lhs ast.Expr, usesCur bool, mk func(cur ggVal) ggVal, env *
 	}
 	g.fail(lhs.Pos(), "assignment target %s is outside the subset", g.text(lhs.Pos(), lhs.End()))
 	panic("unreachable")
+}
+
+// alwaysNonNilCtor reports whether e is a call of a function of the translated package whose whole body is
+// `return &T{...}` (NewUserError, NewFatalError, ...): such a call yields a non-nil error whatever its
+// arguments are, and evaluating the arguments has no effect the subset can observe (they are error values
+// built by fmt.Errorf / errors.New or plain expressions).  Checked on the declaration's syntax on every run.
+func (f *ggFn) alwaysNonNilCtor(e ast.Expr) bool {
+	g := f.g
+	c, ok := e.(*ast.CallExpr)
+	if !ok {
+		return false
+	}
+	id, ok := c.Fun.(*ast.Ident)
+	if !ok {
+		return false
+	}
+	fn, ok := g.info.Uses[id].(*types.Func)
+	if !ok {
+		return false
+	}
+	decl := g.funcs[fn]
+	if decl == nil || decl.Recv != nil || decl.Body == nil || len(decl.Body.List) != 1 {
+		return false
+	}
+	ret, ok := decl.Body.List[0].(*ast.ReturnStmt)
+	if !ok || len(ret.Results) != 1 {
+		return false
+	}
+	u, ok := ret.Results[0].(*ast.UnaryExpr)
+	if !ok || u.Op != token.AND {
+		return false
+	}
+	if _, ok := u.X.(*ast.CompositeLit); !ok {
+		return false
+	}
+	for _, a := range c.Args { // arguments: only error values known to be side-effect free
+		ac, ok := a.(*ast.CallExpr)
+		if !ok {
+			return false
+		}
+		sel, ok := ac.Fun.(*ast.SelectorExpr)
+		if !ok {
+			return false
+		}
+		pk, ok := sel.X.(*ast.Ident)
+		if !ok {
+			return false
+		}
+		pn, ok := g.info.Uses[pk].(*types.PkgName)
+		if !ok {
+			return false
+		}
+		p := pn.Imported().Path()
+		if !((p == "fmt" && sel.Sel.Name == "Errorf") || (p == "errors" && sel.Sel.Name == "New")) {
+			return false
+		}
+	}
+	return true
 }
